@@ -39,6 +39,8 @@ async fn execute(worker: &Worker, case: &Case) -> Execution {
             SelectReply::None => Plan::SelectNone,
             SelectReply::EchoReceived { index } => Plan::SelectEchoReceived(*index),
             SelectReply::Scripted { target, .. } => Plan::SelectScripted(target.to_wire()),
+            SelectReply::Slow { index, delay_ms } => Plan::SelectSlowEcho(*index, *delay_ms),
+            SelectReply::Status { code } => Plan::SelectStatus(code.clone()),
         },
     });
     let fut = judge::call_adapter(worker, case);
